@@ -4,6 +4,7 @@ From Coq Require Import ZArith Bool Lia List Arith.
 From TF Require Import Word BFieldGen BFieldProofs Tip5Ssa Tip5Gen Tip5 Tip5Spec Tip5Proofs.
 Import ListNotations.
 Open Scope Z_scope.
+Ltac Zify.zify_post_hook ::= Z.div_mod_to_equations.
 
 (* ================================================================ domain separation *)
 (* the two initial states differ - in the capacity, before any absorption or permutation *)
@@ -14,3 +15,159 @@ Theorem domains_differ :
   map val (tip5_new VariableLength) = repeat 0 16 /\
   map val (tip5_new FixedLength) = repeat 0 10 ++ repeat 1 6.
 Proof. vm_compute. repeat split; try reflexivity; discriminate. Qed.
+
+(* ================================================================ padding *)
+Lemma srate_is : srate = 10%nat. Proof. reflexivity. Qed.
+Lemma nrate_is : nrate = 10%nat. Proof. reflexivity. Qed.
+Lemma one_not_zero : bfe_one <> bfe_zero. Proof. vm_compute. discriminate. Qed.
+
+Definition pad_zeros (n : nat) : nat := ((10 - (n + 1) mod 10) mod 10)%nat.
+
+Lemma sub_mod_10 r : (r < 10 -> (10 - r) mod 10 = if Nat.eqb r 0 then 0 else 10 - r)%nat.
+Proof. intros H. do 10 (destruct r as [|r]; [reflexivity|]). lia. Qed.
+Lemma mod10_unique q s : (s < 10 -> (10 * q + s) mod 10 = s)%nat.
+Proof. intros H. symmetry. apply (Nat.mod_unique _ 10 q s); lia. Qed.
+
+(* the arithmetic of the padding length, by cases on r = (n + 1) mod 10 *)
+Lemma pad_zeros_spec n :
+  exists q r, (n + 1 = 10 * q + r /\ r < 10 /\ (n + 1) mod 10 = r /\ pad_zeros n = if Nat.eqb r 0 then 0 else 10 - r)%nat.
+Proof.
+  exists ((n + 1) / 10)%nat, ((n + 1) mod 10)%nat.
+  pose proof (Nat.mod_upper_bound (n + 1) 10 ltac:(lia)) as Hb.
+  split; [apply Nat.div_mod; lia|]. split; [exact Hb|]. split; [reflexivity|]. apply sub_mod_10. exact Hb.
+Qed.
+
+Lemma next_multiple_of_10 a : (next_multiple_of (a + 1) 10 = a + 1 + pad_zeros a)%nat.
+Proof.
+  unfold next_multiple_of. destruct (pad_zeros_spec a) as [q [r [E [Hr [Em Ez]]]]]. rewrite Ez, Em.
+  destruct (Nat.eqb_spec r 0) as [Z|NZ]; lia.
+Qed.
+
+Lemma firstn_repeat {A} (x : A) k n : (k <= n)%nat -> firstn k (repeat x n) = repeat x k.
+Proof.
+  revert n. induction k as [|k IH]; intros n H; [reflexivity|].
+  destruct n as [|n]; [lia|]. cbn [repeat firstn]. rewrite IH by lia. reflexivity.
+Qed.
+
+(* pad_shape: the padded input is the input, a single one, and k zeros, k < 10 the least number that makes the
+   length a multiple of the rate *)
+Theorem pad_shape input :
+  let k := pad_zeros (length input) in
+  pad input = input ++ bfe_one :: repeat bfe_zero k /\ (k < 10)%nat /\
+  (length (pad input) mod 10 = 0)%nat /\
+  (forall k', (k' < k)%nat -> ((length input + 1 + k') mod 10 <> 0)%nat).
+Proof.
+  intros k. unfold pad. rewrite srate_is, next_multiple_of_10. fold k.
+  destruct (pad_zeros_spec (length input)) as [q [r [E [Hr [Em Ez]]]]]. fold k in Ez.
+  assert (Hk : (k < 10)%nat) by (rewrite Ez; destruct (Nat.eqb_spec r 0); lia).
+  assert (E2 : firstn (length input + 1 + k) (input ++ bfe_one :: repeat bfe_zero (length input + 1 + k))
+              = input ++ bfe_one :: repeat bfe_zero k).
+  { rewrite <- Nat.add_assoc, firstn_app_2. f_equal. cbn [Nat.add firstn]. f_equal. apply firstn_repeat. lia. }
+  rewrite E2. split; [reflexivity|]. split; [exact Hk|]. split.
+  - rewrite app_length. cbn [length]. rewrite repeat_length.
+    replace (length input + S k)%nat with (length input + 1 + k)%nat by lia. rewrite E, Ez.
+    destruct (Nat.eqb_spec r 0) as [Z|NZ].
+    + rewrite Z. replace (10 * q + 0 + 0)%nat with (10 * q + 0)%nat by lia. apply mod10_unique. lia.
+    + replace (10 * q + r + (10 - r))%nat with (10 * (q + 1) + 0)%nat by lia. apply mod10_unique. lia.
+  - intros k' Hk'. rewrite E. rewrite Ez in Hk'. destruct (Nat.eqb_spec r 0) as [Z|NZ]; [lia|].
+    replace (10 * q + r + k')%nat with (10 * q + (r + k'))%nat by lia. rewrite mod10_unique by lia. lia.
+Qed.
+
+Lemma repeat_snoc {A} (x : A) n : repeat x n ++ [x] = x :: repeat x n.
+Proof. induction n as [|n IH]; [reflexivity|]. cbn [repeat app]. rewrite IH. reflexivity. Qed.
+Lemma rev_repeat {A} (x : A) n : rev (repeat x n) = repeat x n.
+Proof. induction n as [|n IH]; [reflexivity|]. cbn [repeat rev]. rewrite IH. apply repeat_snoc. Qed.
+
+Lemma repeat_marker_inj {A} (z o : A) k1 k2 x y : o <> z ->
+  repeat z k1 ++ o :: x = repeat z k2 ++ o :: y -> k1 = k2 /\ x = y.
+Proof.
+  intros Hne. revert k2. induction k1 as [|k1 IH]; intros k2 H.
+  - destruct k2 as [|k2]; cbn in H.
+    + inversion H. auto.
+    + inversion H. contradiction.
+  - destruct k2 as [|k2]; cbn in H.
+    + inversion H. symmetry in H1. contradiction.
+    + inversion H as [H1]. destruct (IH k2 H1) as [-> ->]. auto.
+Qed.
+
+(* pad_injective: different inputs are padded differently *)
+Theorem pad_injective a b : pad a = pad b -> a = b.
+Proof.
+  intros H. destruct (pad_shape a) as [Ea _]. destruct (pad_shape b) as [Eb _]. cbv zeta in Ea, Eb.
+  rewrite Ea, Eb in H. apply (f_equal (@rev Z)) in H.
+  rewrite !rev_app_distr in H. cbn [rev] in H. rewrite !rev_repeat, <- !app_assoc in H. cbn [app] in H.
+  destruct (repeat_marker_inj _ _ _ _ _ _ one_not_zero H) as [_ E].
+  rewrite <- (rev_involutive a), <- (rev_involutive b), E. reflexivity.
+Qed.
+
+(* on values: the specification's padding *)
+Theorem pad_values input : map val (pad input) = spec_pad (map val input).
+Proof.
+  destruct (pad_shape input) as [E _]. cbv zeta in E. rewrite E. unfold spec_pad.
+  rewrite map_app, map_length. cbn [map app]. apply f_equal.
+  fold (pad_zeros (length input)). generalize (pad_zeros (length input)). intros k.
+  assert (E1 : val bfe_one = 1) by (vm_compute; reflexivity). rewrite E1. apply f_equal.
+  assert (E0 : val bfe_zero = 0) by (vm_compute; reflexivity).
+  induction k as [|k IH]; [reflexivity|]. cbn [repeat map]. rewrite IH, E0. reflexivity.
+Qed.
+
+(* ================================================================ chunking and pad_and_absorb_all *)
+Lemma chunks_go_mult k : forall fuel l, length l = (10 * k)%nat -> (k <= fuel)%nat ->
+  Forall (fun c => length c = 10%nat) (chunks_go fuel 10 l) /\ concat (chunks_go fuel 10 l) = l /\
+  length (chunks_go fuel 10 l) = k.
+Proof.
+  induction k as [|k IH]; intros fuel l Hl Hf.
+  - destruct l; [|cbn in Hl; lia]. destruct fuel; cbn; auto.
+  - destruct fuel as [|f]; [lia|]. destruct l as [|x l]; [cbn in Hl; lia|].
+    cbn [chunks_go]. remember (x :: l) as l' eqn:El'.
+    assert (L1 : length (firstn 10 l') = 10%nat) by (rewrite firstn_length; lia).
+    assert (L2 : length (skipn 10 l') = (10 * k)%nat) by (rewrite skipn_length; lia).
+    destruct (IH f (skipn 10 l') L2 ltac:(lia)) as [I1 [I2 I3]].
+    split; [constructor; assumption|]. split.
+    + cbn [concat]. rewrite I2. apply firstn_skipn.
+    + cbn [length]. rewrite I3. reflexivity.
+Qed.
+
+Lemma pad_length input : exists k, length (pad input) = (10 * k)%nat /\ (1 <= k)%nat.
+Proof.
+  destruct (pad_shape input) as [E [Hk [Hm _]]]. cbv zeta in *.
+  assert (H1 : (1 <= length (pad input))%nat) by (rewrite E, app_length; cbn [length]; lia).
+  pose proof (Nat.div_mod (length (pad input)) 10 ltac:(lia)) as D. rewrite Hm in D.
+  exists (length (pad input) / 10)%nat. revert D H1. generalize (length (pad input) / 10)%nat.
+  generalize (length (pad input)). clear. intros L q D H1. split; lia.
+Qed.
+
+Lemma absorb_chunks_ok {S} (ab : S -> list Z -> S) cs : Forall (fun c => length c = 10%nat) cs ->
+  forall s, absorb_chunks S ab s cs = Some (fold_left ab cs s).
+Proof.
+  induction 1 as [|c cs Hc _ IH]; intros s; [reflexivity|].
+  cbn [absorb_chunks fold_left]. rewrite srate_is, Hc, Nat.eqb_refl. apply IH.
+Qed.
+
+(* pad_and_absorb_all never panics and absorbs exactly the chunks of the padded input, in order; the chunks
+   all have RATE elements and concatenate to  input ++ [1] ++ 0^k *)
+Theorem pad_and_absorb_all_spec {S} (ab : S -> list Z -> S) s input :
+  let cs := chunks 10 (pad input) in
+  pad_and_absorb_all S ab s input = Some (fold_left ab cs s) /\
+  Forall (fun c => length c = 10%nat) cs /\ concat cs = pad input /\ (10 * length cs = length (pad input))%nat.
+Proof.
+  intros cs. destruct (pad_length input) as [k [Hk Hk1]].
+  destruct (chunks_go_mult k (length (pad input)) (pad input) Hk ltac:(lia)) as [C1 [C2 C3]].
+  fold (chunks 10 (pad input)) in C1, C2, C3. fold cs in C1, C2, C3.
+  unfold pad_and_absorb_all. rewrite srate_is. fold cs.
+  split; [apply absorb_chunks_ok; exact C1|]. split; [exact C1|]. split; [exact C2|]. lia.
+Qed.
+
+(* the recording sponge: what is absorbed is, concatenated, exactly the padded input *)
+Theorem recording_spec input : exists cs,
+  recording_pad_and_absorb_all [] input = Some cs /\ concat cs = input ++ bfe_one :: repeat bfe_zero (pad_zeros (length input)) /\
+  Forall (fun c => length c = 10%nat) cs.
+Proof.
+  destruct (pad_and_absorb_all_spec (fun (s : list (list Z)) c => s ++ [c]) [] input) as [E [C1 [C2 _]]].
+  cbv zeta in *. exists (chunks 10 (pad input)). unfold recording_pad_and_absorb_all. rewrite E.
+  assert (F : forall cs s, fold_left (fun (s : list (list Z)) c => s ++ [c]) cs s = s ++ cs).
+  { induction cs as [|c cs IH]; intros s; cbn [fold_left]; [rewrite app_nil_r; reflexivity|].
+    rewrite IH, <- app_assoc. reflexivity. }
+  rewrite F. cbn [app]. split; [reflexivity|]. split; [|exact C1].
+  rewrite C2. apply pad_shape.
+Qed.
